@@ -57,7 +57,7 @@ def attribute(problem, source, findings):
             continue
         if g.get("code") and g["code"] != problem.get("code"):
             continue
-        if g.get("text_re") and not re.search(g["text_re"], (problem.get("exc_type") or "") + " " + (problem.get("text") or "")):
+        if g.get("text_re") and not re.search(g["text_re"], (problem.get("exc_type") or "") + " " + (problem.get("exc_head") or "") + " " + (problem.get("text") or "")):
             continue
         if g.get("source_re") and not re.search(g["source_re"], source):
             continue
